@@ -69,6 +69,22 @@ CHECKS["C05"] = dict(
          "(register limit reported at run time) is pinned.",
     technique="TLC exploration of the control-flow graph of real compiled chunks (ChunkCfg.tla) + scale sweep + double compilation",
     engine="chunkcfg")
+CHECKS["C06"] = dict(
+    category="exploration",
+    text="The outcome alphabet of compiling, formatting, rendering an error, running and displaying is {value, error}; there is no "
+         "Panic outcome (LexGen.tla, CoreCalls.tla). TLC generates the input spaces: LexGen.tla is the lexer's push-down mode "
+         "automaton as a generator (code, quoted literal, template expression, format options, raw string, nested comment, inline "
+         "map, parentheses): every path of at most Depth fragments from 11 start contexts, each text cut off inside whatever is open "
+         "and closed again, pushed through lex, parse, compile + error rendering, format (default and narrow options) and run; "
+         "CoreCalls.tla enumerates, for every callable entry of the prelude dumped from the runtime under test, every argument tuple "
+         "up to the arity bound over a pool of 34 boundary values, a name used twice denoting the same object (receiver passed as "
+         "its own argument, callbacks that mutate the receiver); result or error is displayed. Every other check also treats a "
+         "panic of the code under test as a violation of its replay.",
+    design_ref="DESIGN.md §5 C06",
+    note="Allocation failures and capacity overflows are outside the property (calls run under an address-space limit); io.* file "
+         "functions, os.command and koto.exit are not called; not a substitute for coverage-guided fuzzing of arbitrary bytes.",
+    technique="TLC-generated input spaces (lexer mode automaton paths, core-library call tuples) run through the front end and the runtime",
+    engine="lexgen")
 CHECKS["C07"] = dict(
     category="model_checking",
     text="Session.tla specifies one embedding instance as a state machine over its completed effects; TLC enumerates every "
@@ -200,6 +216,23 @@ CHECKS["C18"] = dict(
     technique="TLC-enumerated module graphs (Modules.tla) materialised and replayed; KotoCore oracle for export_top_level_ids",
     engine="modules")
 
+CHECKS["C19"] = dict(
+    category="model_checking",
+    text="Shared.tla transcribes the lock steps of the list operations (core_lib/list.rs: which lock, what is checked and changed "
+         "under it) and TLC checks, for every pair/triple of scripts and every interleaving, NoPanic, Linearizable (SharedOps!Explains: "
+         "the observations and final contents are explained by a one-at-a-time order), LocksAreSound and deadlock freedom for "
+         "single-container operations; the model of the code as it was (two-step insert/remove) must be rejected. Conformance on the "
+         "arc build with real threads (kv threads): small rounds of 2-4 runtimes x 2-4 list operations are validated by TLC against "
+         "the same Explains operator (Trace_Shared.tla); soak rounds of racing operation pairs on a shared list or map check no "
+         "panic, no hang, exact counts (no lost update) and that readers never see a partially applied multi-element update. "
+         "rc == arc: programs of the KotoCore families are run on both builds against one prediction.",
+    design_ref="DESIGN.md §5 C19",
+    note="Atomicity is claimed for operations on one container without callbacks; the model shows swap(a, b) against swap(b, a) can "
+         "deadlock (two containers: outside the property). Real threads cannot be scheduled; narrow races are reached by the model "
+         "and the soak rounds.",
+    technique="TLC model checking of lock-step programs (Shared.tla) + TLC validation of rounds recorded from real threads (Trace_Shared.tla) + rc/arc replay diff",
+    engine="shared")
+
 NOT_APPLICABLE = {
     "C20": "Codec fidelity of JSON/YAML/TOML text and two serde visitors: no state machine, and the value domain that "
            "matters (string escapes, full i64 range, float text) is outside what TLC can represent; a TLA+ model would "
@@ -257,13 +290,17 @@ def main():
              "kind_free_text": "TLA+ specification of the VM's control state; hook events of real executions are folded through its actions (Trace_KotoVm.tla)"},
             {"name": "session", "path": "spec/Session.tla", "serves_properties": ["C07"],
              "kind_free_text": "TLA+ state machine of one embedding instance; TLC enumerates operation histories that are replayed on koto::Koto"},
+            {"name": "lexgen", "path": "spec/LexGen.tla", "serves_properties": ["C06"],
+             "kind_free_text": "TLA+ generator: the lexer's mode automaton, TLC enumerates its paths as input texts; CoreCalls.tla enumerates core-library call tuples"},
+            {"name": "shared", "path": "spec/Shared.tla", "serves_properties": ["C19"],
+             "kind_free_text": "TLA+ model of lock-step programs of shared-container operations; SharedOps!Explains also validates rounds recorded from real threads"},
             {"name": "strings", "path": "spec/Strings.tla", "serves_properties": ["C15"],
              "kind_free_text": "TLA+ definitions of string operations on code points, UTF-8 bytes and grapheme clusters; TLC enumerates cases and predicts results"},
             {"name": "format", "path": "spec/Format.tla", "serves_properties": ["C11"],
              "kind_free_text": "TLA+ statement of Format as a stuttering, idempotent step; recorded format runs are validated against it"},
             {"name": "blocks", "path": "spec/Blocks.tla", "serves_properties": ["C10"],
              "kind_free_text": "TLA+ model of block-structured text typed line by line; TLC enumerates typed prefixes"},
-            {"name": "kotocore", "path": "spec/KotoCore.tla", "serves_properties": ["C01", "C02", "C03", "C04", "C10", "C11", "C12", "C14", "C16", "C17", "C18"],
+            {"name": "kotocore", "path": "spec/KotoCore.tla", "serves_properties": ["C01", "C02", "C03", "C04", "C10", "C11", "C12", "C14", "C16", "C17", "C18", "C19"],
              "kind_free_text": "TLA+ abstract machine of the Koto language executed by TLC; predictions replayed into the implementation by harness/kv"},
         ],
         "checks": checks,
